@@ -21,7 +21,6 @@ Signatures: C03:name-trailing-newline (F2 class: a legacy-looking metric, sample
 C03:label-name-unvalidated:<source> (a label name the library itself would reject reached the exposition through a
 path that does not validate it), else C03:<what differs>.
 """
-import hashlib
 import itertools
 import math
 import re
@@ -917,9 +916,9 @@ class Runner:
 
         def h_parse(rep, creal=creal, case=case, text=text):
             ctx.traces += 1
-            cm = c14text.canon_model(rep)
-            if cm != creal:
-                ctx.diverge('parse of the real exposition: real=%s model=%s (text %r)' % (creal[:200], cm[:200], text[:200]), case)
+            why = c14text.disagree(creal, rep)
+            if why:
+                ctx.diverge('parse of the real exposition: %s (text %r)' % (why, text[:200]), case)
         self.request('c03 parse %d %s' % (legacy, lib.hx(text)), h_parse)
         return res
 
@@ -943,9 +942,9 @@ class Runner:
 
         def h(rep, creal=creal, case=case, doc=doc):
             ctx.traces += 1
-            cm = c14text.canon_model(rep)
-            if cm != creal:
-                ctx.diverge('malformed document: real=%s model=%s on %r' % (creal[:200], cm[:200], doc[:200]), case)
+            why = c14text.disagree(creal, rep)
+            if why:
+                ctx.diverge('malformed document: %s on %r' % (why, doc[:200]), case)
         self.request('c03 parse %d %s' % (int(bool(legacy)), lib.hx(doc)), h)
 
     def flush(self):
